@@ -227,6 +227,24 @@ impl Report {
     pub fn failed(&self) -> bool {
         !self.violations.is_empty()
     }
+    /// Fold in a report built concurrently (e.g. an expensive enumerated part run beside the
+    /// generated search).
+    pub fn merge(&mut self, o: Report) {
+        self.stats.merge(o.stats);
+        for (k, (e, n)) in o.per_sub {
+            let x = self.per_sub.entry(k).or_insert((0, 0));
+            x.0 += e;
+            x.1 += n;
+        }
+        self.violations.extend(o.violations);
+        for (k, (t, n)) in o.known_hits {
+            let x = self.known_hits.entry(k).or_insert((t, 0));
+            x.1 += n;
+        }
+        self.corpus_replayed += o.corpus_replayed;
+        self.notes.extend(o.notes);
+        self.extra.extend(o.extra);
+    }
 }
 
 // ------------------------------------------------------------------ panic capture
@@ -533,10 +551,31 @@ pub fn replay_corpus(env: &Env, subs: &[&dyn DynSub], report: &mut Report) {
         Err(_) => vec![],
     };
     files.sort();
-    for f in files {
-        if let Err(e) = replay_file(env, subs, &f, report) {
-            eprintln!("harness: corpus file unusable: {}", e);
-            std::process::exit(2);
+    // files are independent: replay them on the worker pool, merge in file order
+    let next = std::sync::atomic::AtomicUsize::new(0);
+    let done: Mutex<Vec<(usize, Result<Report, String>)>> = Mutex::new(vec![]);
+    std::thread::scope(|scope| {
+        for _ in 0..env.workers.max(1).min(files.len().max(1)) {
+            scope.spawn(|| loop {
+                let i = next.fetch_add(1, Ordering::Relaxed);
+                if i >= files.len() {
+                    break;
+                }
+                let mut r = Report::new();
+                let res = replay_file(env, subs, &files[i], &mut r).map(|_| r);
+                done.lock().unwrap().push((i, res));
+            });
+        }
+    });
+    let mut done = done.into_inner().unwrap();
+    done.sort_by_key(|(i, _)| *i);
+    for (_, res) in done {
+        match res {
+            Ok(r) => report.merge(r),
+            Err(e) => {
+                eprintln!("harness: corpus file unusable: {}", e);
+                std::process::exit(2);
+            }
         }
     }
 }
